@@ -15,7 +15,7 @@ Require Import QzCron.CsmModel QzCron.CsmSpec QzCron.NextFire QzCron.NftProofs Q
 Open Scope Z_scope.
 
 Theorem C14_nft_zone_sound : forall f z prev ns,
-  wf_fields f = true -> wf_zone z = true -> 0 <= prev <= max_nanos ->
+  wf_fields f = true -> wf_zone z = true -> min_nanos <= prev <= max_nanos ->
   next_fire_time_zone f z prev = Fire ns ->
   ns mod nanos = 0 /\ prev < ns <= max_nanos /\
   exists c, civil_from_unix (offset_at z (ns / nanos)) (ns / nanos) = Some c /\ matches f c = true /\ valid_civil c = true.
@@ -23,7 +23,7 @@ Proof. exact nft_zone_sound_wf. Qed.
 Print Assumptions C14_nft_zone_sound.
 
 Theorem C14_nft_zone_total : forall f z prev,
-  wf_fields f = true -> wf_zone z = true -> 0 <= prev <= max_nanos ->
+  wf_fields f = true -> wf_zone z = true -> min_nanos <= prev <= max_nanos ->
   next_fire_time_zone f z prev <> ModelError.
 Proof. exact nft_zone_total_wf. Qed.
 Print Assumptions C14_nft_zone_total.
@@ -35,21 +35,21 @@ Print Assumptions C14_no_transitions_is_fixed_offset.
 
 (* a matching instant after prev that is not the repeat of an earlier instant is never passed over *)
 Theorem C14_never_skips_fresh : forall f z prev t,
-  wf_fields f = true -> wf_zone z = true -> 0 <= prev <= max_nanos ->
+  wf_fields f = true -> wf_zone z = true -> min_nanos <= prev <= max_nanos ->
   prev < t <= max_nanos -> t mod nanos = 0 -> matches_at f z t -> ~ is_repeat z t ->
   exists ns, next_fire_time_zone f z prev = Fire ns /\ ns <= t.
 Proof. exact nft_zone_never_skips_fresh. Qed.
 Print Assumptions C14_never_skips_fresh.
 
 Theorem C14_skips_only_repeats : forall f z prev ns t,
-  wf_fields f = true -> wf_zone z = true -> 0 <= prev <= max_nanos ->
+  wf_fields f = true -> wf_zone z = true -> min_nanos <= prev <= max_nanos ->
   next_fire_time_zone f z prev = Fire ns ->
   prev < t < ns -> t mod nanos = 0 -> matches_at f z t -> is_repeat z t.
 Proof. exact nft_zone_skips_only_repeats. Qed.
 Print Assumptions C14_skips_only_repeats.
 
 Theorem C14_no_false_expiry : forall f z prev t,
-  wf_fields f = true -> wf_zone z = true -> 0 <= prev <= max_nanos ->
+  wf_fields f = true -> wf_zone z = true -> min_nanos <= prev <= max_nanos ->
   next_fire_time_zone f z prev = Expired ->
   prev < t <= max_nanos -> t mod nanos = 0 -> matches_at f z t -> is_repeat z t.
 Proof. exact nft_zone_no_false_expiry. Qed.
